@@ -186,9 +186,12 @@ def apply_body_rules(src, lo, hi, ed, rules):
                 j = src.skip_group(j)
             if comma is not None and comma + 1 < close:
                 ed.replace(s[comma].start, s[close].start, "", 5)
-                rules["R5"] = rules.get("R5", 0) + 1
             elif comma is not None:
                 ed.replace(s[comma].start, s[close].start, "", 5)
+            # the condition becomes the precondition of a call, so that it is parsed as Verus code
+            # (closures with contracts inside it) and is a proof obligation
+            ed.replace(t.start, s[i + 1].end, "vx_assert", 5)
+            rules["R5"] = rules.get("R5", 0) + 1
             # continue scanning inside the condition
             i += 3
             continue
@@ -787,13 +790,23 @@ class Generator:
                 cl = []
                 q = blo
                 while q < bhi:
-                    if src.is_p(q, "|") and src.is_p(q - 1, "(") and src.is_id(q + 1) and src.is_p(q + 2, "|"):
+                    if src.is_p(q, "|") and (src.is_p(q - 1, "(") or src.is_p(q - 1, ",")) and src.is_id(q + 1) and src.is_p(q + 2, "|"):
                         cl.append(q)
                     q += 1
                 if n < 1 or n > len(cl):
                     raise LostAnchor("%s: %s has %d simple closures, directive names closure %d" % (file, path[-1], len(cl), n))
                 c0 = cl[n - 1]
-                close = src.match[c0 - 1]
+                # closing parenthesis of the call the closure is an argument of
+                depth, q = 0, c0 - 1
+                while q >= blo:
+                    if s[q].kind == PUNCT and s[q].text in ")]}":
+                        depth += 1
+                    elif s[q].kind == PUNCT and s[q].text in "([{":
+                        if depth == 0:
+                            break
+                        depth -= 1
+                    q -= 1
+                close = src.match[q]
                 ed.replace(s[c0].start, s[c0 + 2].end, text.strip() + " {", 1)
                 ed.insert(s[close].start, " }", 1)
                 rules["R11"] = rules.get("R11", 0) + 1
